@@ -27,8 +27,23 @@ structure VP where
   mode : Nat := 0           -- 0: GetWorkConn fails (handler closes the visitor), 1: a work connection each time
   pending : List Nat := []  -- accepted by NewConn, outcome not yet reported
 
+/-- a session whose control connection is a gate the scripted client can stall (harness/eng_pool_send.go):
+    the send path model + what the client did -/
+structure GSess where
+  sp : SendPath.St := {}
+  stalled : Bool := false    -- the client does not read: no `written true`
+  next : Nat := 0            -- fresh sender ids
+  reqIds : List Nat := []    -- the senders whose message is a ReqWorkConn
+  users : Nat := 0           -- user connections dialled over the session's life
+  poolCap : Nat := 10        -- cap(workConnCh)
+  pooled : Nat := 0          -- work connections sitting in the pool
+  offered : Nat := 0         -- work connections the client has offered
+  takers : Nat := 0          -- users whose handler received a pooled connection
+  readerParked : Bool := false  -- a Pong did not fit: the read loop itself sits in Send (outside the driven domain)
+
 structure PoolState where
   maxPool : Int := 5
+  gs : List (String × GSess) := []
   spec : List (String × (Int × Int)) := []   -- session ↦ (Login.PoolCount, MaxPoolCount)
   vl : VListen.St := {}
   vps : List (String × VP) := []
@@ -53,6 +68,51 @@ def PoolState.setS (ps : PoolState) (sid : String) (s : St) : PoolState :=
 def PoolState.meta? (ps : PoolState) (c : Nat) : Option WMeta := ps.metas.find? (·.id == c)
 def PoolState.updMeta (ps : PoolState) (c : Nat) (f : WMeta → WMeta) : PoolState :=
   { ps with metas := ps.metas.map (fun m => if m.id == c then f m else m) }
+
+/-! ### the send path (SendPath, select variant = the tree) under the harness's schedule: the send loop and a
+    reading client are eager, parked senders enter in the order they parked -/
+
+def spStep (s : SendPath.St) (l : SendPath.Label) : SendPath.St := (SendPath.step false s l).getD s
+
+/-- the send loop: receive, write; with a stalled client the first write never returns -/
+def spPump (stalled : Bool) : Nat → SendPath.St → SendPath.St
+  | 0, s => s
+  | fuel + 1, s =>
+    match s.wr with
+    | some _ => if stalled then s else spPump stalled fuel (spStep s (.written true))
+    | none =>
+      match s.q with
+      | [] => s
+      | _ :: _ => spPump stalled fuel (spStep s .loopRecv)
+
+/-- pump, let parked senders in while there is room, again -/
+def spSettle (stalled : Bool) : Nat → SendPath.St → SendPath.St
+  | 0, s => s
+  | fuel + 1, s =>
+    let s := spPump stalled (2 * s.q.length + 4) s
+    match SendPath.parkedOf s with
+    | [] => s
+    | ps =>
+      let s' := ps.foldl (fun s u => spStep s (.enq u)) s
+      if s'.q.length = s.q.length then s' else spSettle stalled fuel s'
+
+/-- one `Send` by a fresh goroutine -/
+def GSess.send (g : GSess) (isReq : Bool) : GSess :=
+  let u := g.next
+  let s := spStep (spStep g.sp (.call u)) (.enq u)
+  let s := spPump g.stalled 4 s
+  { g with sp := s, next := u + 1, reqIds := if isReq then u :: g.reqIds else g.reqIds }
+
+def GSess.sends (g : GSess) (isReq : Bool) : Nat → GSess
+  | 0 => g
+  | n + 1 => (g.send isReq).sends isReq n
+
+def GSess.parked (g : GSess) : Nat := (SendPath.parkedOf g.sp).length
+def GSess.delivered (g : GSess) : Nat := (g.sp.wire.filter (fun m => g.reqIds.contains m)).length
+
+def PoolState.getG (ps : PoolState) (sid : String) : Option GSess := ps.gs.lookup sid
+def PoolState.setG (ps : PoolState) (sid : String) (g : GSess) : PoolState :=
+  { ps with gs := (sid, g) :: ps.gs.filter (fun e => e.1 ≠ sid) }
 
 def stepS (s : St) (l : Label) : St × Res :=
   match step current s l with
@@ -286,6 +346,58 @@ def poolOp (ps : PoolState) (tok : List String) (impl : String) : Option (PoolSt
     let s := teardown s
     let (ps, r) := census ps sid s0 s ws
     pure (ps.setS sid s, r, some (C11.censusOk impl))
+  | ["sqlogin", sid, pool] => do
+    let pool ← pool.toInt?
+    let pc := clampPoolCount current.clampPoolCount (newPoolCount pool ps.maxPool)
+    if newControlPanics pc then pure ({ ps with crashed := true }, "crash", some false)
+    else
+      -- Start(): the advance requests; then the NewProxyResp; the client reads: all of it is written
+      let g : GSess := { sp := SendPath.init 100, poolCap := capOf pc }
+      let g := (g.sends true (advance pc)).send false
+      pure (ps.setG sid g, s!"ok:{g.delivered}", some (C11.loginOk pool ps.maxPool impl))
+  | ["sqstall", sid] => do
+    let g ← ps.getG sid
+    pure (ps.setG sid { g with stalled := true }, "-", none)
+  | ["sqoffer", sid, k] => do
+    let k ← k.toNat?
+    let g ← ps.getG sid
+    -- RegisterWorkConn: pooled while there is room, refused and closed beyond (no handler is waiting: the
+    -- generator offers before the first user; otherwise the op is outside the driven domain)
+    let p := min (g.pooled + k) g.poolCap
+    pure (ps.setG sid { g with pooled := p, offered := g.offered + k }, s!"P:{p}", some (C11.sendPooledOk g.poolCap impl))
+  | ["sqping", sid, n] => do
+    let n ← n.toNat?
+    let g ← ps.getG sid
+    let g := g.sends false n
+    let g := { g with sp := spSettle g.stalled 8 g.sp }
+    if g.parked = 0 then pure (ps.setG sid g, "ok", none)
+    else pure (ps.setG sid { g with readerParked := true }, "blocked", none)
+  | ["squsers", sid, n] => do
+    let n ← n.toNat?
+    let g ← ps.getG sid
+    -- GetWorkConn: a handler that receives a pooled connection sends the replacement request, one that finds the
+    -- pool empty sends its request first: one Send(ReqWorkConn) each, it returns or the handler parks in it
+    let t := min n g.pooled
+    let g := g.sends true n
+    let g := { g with sp := spSettle g.stalled 8 g.sp, users := g.users + n, pooled := g.pooled - t, takers := g.takers + t }
+    pure (ps.setG sid g, s!"S:{g.parked}", some (C11.sendParkedOk g.sp.cap g.stalled impl))
+  | ["sqresume", sid] => do
+    let g ← ps.getG sid
+    let g := { g with stalled := false }
+    let g := { g with sp := spSettle false 16 g.sp }
+    pure (ps.setG sid g, s!"S:{g.parked};r={g.delivered}", some (C11.sendResumedOk impl))
+  | ["sqend", sid, _kind] => do
+    let g ← ps.getG sid
+    -- the read fails (`close(doneCh)`), the worker closes the connection; every parked handler's doneCh arm
+    -- fires (`blocked_sender_released_on_end`); handlers whose Send had returned meet the closed pool
+    let s := spStep (spStep g.sp .readFail) .connClose
+    let s := (SendPath.parkedOf s).foldl (fun s u => spStep s (.wake u)) s
+    let left := (SendPath.parkedOf s).length
+    -- released: a taker returns its connection to GetWorkConnFromPool (StartWorkConn, bridge), every other handler
+    -- closes its user; the drain closes what is still pooled, refused offers were closed at once
+    let unstarted := g.offered - g.takers
+    pure ({ ps with gs := ps.gs.filter (fun e => e.1 ≠ sid) },
+          s!"w={unstarted}/0;u={g.users - g.takers - left}/{left};b={g.takers}", some (C11.censusUsersOk impl))
   | ["mxreset"] => pure ({ ps with hs := {}, lsnDom := [] }, "-", none)
   | ["mxlisten", l, dom] => do
     let l ← idOf l
@@ -437,9 +549,17 @@ def poolStep (ps : PoolState) (tok : List String) (impl : String) : PoolState ×
     -- frps must survive whatever an authenticated client sends
     (ps, verdictOf m impl (some (C11.childOk impl)))
   | _ =>
-    match poolOp ps tok impl with
-    | some (ps', m, p) => (ps', verdictOf m impl p)
-    | none => (ps, .bad "op")
+    -- a Pong that did not fit into the queue leaves the read loop itself parked in Send: the session can
+    -- no longer notice a read failure (dispatcher starvation, C14's); outside what is driven here
+    let starved := match tok with
+      | op :: sid :: _ => op.startsWith "sq" && op != "sqlogin" && ((ps.getG sid).map (·.readerParked)).getD false
+      | _ => false
+    match starved with
+    | true => (ps, .skip "read loop parked in Send")
+    | false =>
+      match poolOp ps tok impl with
+      | some (ps', m, p) => (ps', verdictOf m impl p)
+      | none => (ps, .bad "op")
 
 end PoolEng
 
